@@ -1576,6 +1576,12 @@ func (sc *serverConn) sendData(strm *Stream) bool {
 
 		strm.window -= step
 		sc.clientWindow -= step
+
+		if end {
+			// END_STREAM has gone out on this frame. Asking the body for more
+			// would read (0, io.EOF) and close the stream a second time.
+			break
+		}
 	}
 
 	sc.closeBodyStream(strm)
